@@ -1,6 +1,7 @@
 SPECIFICATION Spec
 CONSTANTS
   NKeys = 3
+  ReW = {}
   Vals <- MCValsQ
   Wt <- MCWt
   Depth = 0
